@@ -12,32 +12,45 @@ EXTENDS Naturals, Sequences, FiniteSets
 CONSTANT PathOrder      \* sequence of all import paths in ascending (byte-wise) order
 
 VARIABLES visible,      \* names visible in the current method scope
-          imp,          \* path -> qualifier
+          imp,          \* REPORTED path (Package.Path()) -> qualifier: what the registry lists
+          req,          \* requested path -> reported path (the registry may report a normalised path)
           inpkg,        \* registry created in-package?
-          dst           \* destination package path
+          dst,          \* destination package path
+          others,       \* names registered in the scope by somebody other than the variable mechanism: visible at
+                        \* creation, AddName, AllocateName, the qualifiers / type names AddVar registered
+          nvars         \* number of variables added to the scope (AddVar)
 
-cvars == <<visible, imp, inpkg, dst>>
+cvars == <<visible, imp, req, inpkg, dst, others, nvars>>
 
 CRange(f) == {f[x] : x \in DOMAIN f}
 CExtend(f, k, v) == [x \in DOMAIN f \cup {k} |-> IF x = k THEN v ELSE f[x]]
+CToSet(s) == {s[i] : i \in 1..Len(s)}
+CDistinct(s) == \A i, j \in 1..Len(s) : i # j => s[i] # s[j]
 Rank(p) == CHOOSE i \in 1..Len(PathOrder) : PathOrder[i] = p
 
-CAddName(n)        == visible' = visible \cup {n} /\ UNCHANGED <<imp, inpkg, dst>>
+CAddName(n)        == visible' = visible \cup {n} /\ others' = others \cup {n} /\ UNCHANGED <<imp, req, inpkg, dst, nvars>>
 CNameExists(n, b)  == b = (n \in visible) /\ UNCHANGED cvars
 CSuggestName(r)    == r \notin visible /\ r # "" /\ UNCHANGED cvars                \* pure
 CAllocateName(r)   == r \notin visible /\ r # "" /\ visible' = visible \cup {r}    \* fresh and recorded
-                      /\ UNCHANGED <<imp, inpkg, dst>>
+                      /\ others' = others \cup {r}
+                      /\ UNCHANGED <<imp, req, inpkg, dst, nvars>>
 
-\* AddImport: nil only for the in-package self import; otherwise the recorded qualifier for a
-\* known path, or a qualifier no other import has for a new one.
-CAddImport(path, nil, q) ==
-  IF nil THEN inpkg /\ path = dst /\ UNCHANGED cvars
+\* The registry part of adding an import, stated over what the registry REPORTS.  nil only for the in-package
+\* self import; otherwise the returned package reports a path rpath and a qualifier q: the same request reports
+\* the same path every time, a reported path that is already listed keeps its qualifier, and a newly listed
+\* one gets a qualifier no other listed import has.
+CImportRel(path, rpath, nil, q) ==
+  IF nil THEN inpkg /\ path = dst /\ UNCHANGED <<imp, req>>
   ELSE /\ ~(inpkg /\ path = dst)
-       /\ q # ""
-       /\ IF path \in DOMAIN imp THEN q = imp[path] /\ UNCHANGED cvars
-          ELSE q \notin CRange(imp) /\ imp' = CExtend(imp, path, q) /\ UNCHANGED <<visible, inpkg, dst>>
+       /\ q # "" /\ rpath # ""
+       /\ path \in DOMAIN req => req[path] = rpath
+       /\ req' = CExtend(req, path, rpath)
+       /\ IF rpath \in DOMAIN imp THEN q = imp[rpath] /\ imp' = imp
+          ELSE q \notin CRange(imp) /\ imp' = CExtend(imp, rpath, q)
 
-\* Imports(): each path once, sorted by path, with the recorded qualifiers
+CAddImport(path, rpath, nil, q) == CImportRel(path, rpath, nil, q) /\ UNCHANGED <<visible, inpkg, dst, others, nvars>>
+
+\* Imports(): each reported path once, sorted by path, with the recorded qualifiers
 CImports(paths, quals) ==
   /\ Len(paths) = Cardinality(DOMAIN imp)
   /\ {paths[i] : i \in 1..Len(paths)} = DOMAIN imp
@@ -46,6 +59,7 @@ CImports(paths, quals) ==
   /\ \A i \in 1..Len(paths) : quals[i] = imp[paths[i]]
   /\ UNCHANGED cvars
 
+\* PkgQualifier(p) agrees with the listed entry for p
 CPkgQualifier(path, found, q) ==
   /\ found = (path \in DOMAIN imp)
   /\ found => q = imp[path]
@@ -53,12 +67,40 @@ CPkgQualifier(path, found, q) ==
 
 \* a scope produced by the registry at any point; vis is whatever that scope reports as visible
 \* ... and it sees every qualifier the file has imported so far (they are names visible in every method)
-CNewScope(vis) == CRange(imp) \subseteq vis /\ visible' = vis /\ UNCHANGED <<imp, inpkg, dst>>
+CNewScope(vis) == CRange(imp) \subseteq vis /\ visible' = vis /\ others' = vis /\ nvars' = 0 /\ UNCHANGED <<imp, req, inpkg, dst>>
 \* the scope produced for a method sees the qualifiers of the file's imports at that point
-\* and the names of the method's own parameters and results (must), as offered to the template
-CScopeSees(vis, must) == CRange(imp) \subseteq vis /\ must \subseteq vis /\ UNCHANGED cvars
+\* and the names of the method's own parameters and results (must, in declaration order), as offered to the
+\* template; those names are pairwise distinct and none equals a qualifier of the file's imports
+CScopeSees(vis, must) == /\ CRange(imp) \subseteq vis /\ CToSet(must) \subseteq vis
+                         /\ CDistinct(must) /\ CToSet(must) \cap CRange(imp) = {}
+                         /\ UNCHANGED cvars
 
-CReset(ip, d, vis) == visible' = vis /\ imp' = << >> /\ inpkg' = ip /\ dst' = d
+\* AddVar: a variable whose type lives in package path ("" = none) is added to the scope.  The package is
+\* imported into the file (as by AddImport) and its qualifier is registered in the scope, and so is the type's
+\* name tstr when that is itself an identifier (tident: a type of the file's own package, a predeclared type);
+\* vis is what the scope reports as visible afterwards.  The variable's provisional name is not constrained.
+CAddVar(path, rpath, nil, q, tstr, tident, vis) ==
+  /\ IF path = "" THEN UNCHANGED <<imp, req>> ELSE CImportRel(path, rpath, nil, q)
+  /\ others' = others \cup (IF tident THEN {tstr} ELSE {}) \cup (IF path = "" \/ nil THEN {} ELSE {q})
+  /\ (IF path = "" \/ nil THEN {} ELSE {q}) \subseteq vis     \* the scope sees the qualifier (not necessarily the type name)
+  /\ visible \subseteq vis
+  /\ visible' = vis
+  /\ nvars' = nvars + 1
+  /\ UNCHANGED <<inpkg, dst>>
+
+\* ResolveVariableNameCollisions: the final names of the scope's variables (in order) are pairwise distinct,
+\* differ from every name somebody else registered in the scope (qualifier, type name, reservation, allocation),
+\* and are visible afterwards together with all of those.
+CResolve(names, vis) ==
+  /\ Len(names) = nvars
+  /\ CDistinct(names)
+  /\ \A i \in 1..Len(names) : names[i] # "" /\ names[i] \notin others
+  /\ (others \cap visible) \cup CToSet(names) \subseteq vis
+  /\ visible' = vis
+  /\ others' = others \cup CToSet(names)
+  /\ UNCHANGED <<imp, req, inpkg, dst, nvars>>
+
+CReset(ip, d, vis) == visible' = vis /\ imp' = << >> /\ req' = << >> /\ inpkg' = ip /\ dst' = d /\ others' = vis /\ nvars' = 0
 
 \* safety statements of C15 that hold in every contract behaviour
 CDistinctQualifiers == \A p, q \in DOMAIN imp : p # q => imp[p] # imp[q]
